@@ -253,7 +253,22 @@ func run(ci any, r *mon.Rec) {
 		rt = 20 * time.Millisecond
 	}
 	for i := 0; i < c.N; i++ {
-		script, desc := mkSchedule(rng, reply, c.Kind, E, c.Client == clientx.Serial)
+		rep := reply
+		if i%5 == 4 && len(reply) > 3 {
+			// what the hooks are shown does not depend on the reply being a good one: a device that sends the last two
+			// bytes (the RTU checksum) in the wrong order, or one flipped bit somewhere
+			rep = append([]byte{}, reply...)
+			if L := len(rep); i%10 == 4 && rep[L-1] != rep[L-2] {
+				rep[L-1], rep[L-2] = rep[L-2], rep[L-1]
+			} else {
+				rep[rng.Intn(len(rep))] ^= 1 << uint(rng.Intn(8))
+			}
+			r.Cover("reply", "damaged (last two bytes swapped / one bit flipped)")
+		}
+		script, desc := mkSchedule(rng, rep, c.Kind, E, c.Client == clientx.Serial)
+		if len(rep) > 0 && &rep[0] != &reply[0] {
+			desc += "/damaged-reply"
+		}
 		clk := &xport.Clock{}
 		h := &recHooks{clk: clk}
 		opt := clientx.Options{ReadTimeout: rt, Hooks: h, Clock: clk, Flusher: i%2 == 0}
